@@ -1027,9 +1027,20 @@ impl<P: PoolAdapter + 'static> Node<P> {
 	}
 	/// deliver a block through the node's chain (the real adapter reconciles the pool) and describe it
 	fn p_deliver(&mut self, bid: usize, opts: Options, what: &str) -> String {
+		self.p_deliver_t(bid, opts, what, |_| Some(None))
+	}
+	/// `trunc`: given the clock reading after the delivery, the line describing the truncation of the
+	/// reorg cache inside `block_accepted` (run `clock`)
+	/// (`None`: the reading slipped - nothing more is printed for this block)
+	fn p_deliver_t(&mut self, bid: usize, opts: Options, what: &str, trunc: impl FnOnce(i64) -> Option<Option<String>>) -> String {
 		let b = self.kit.blks[bid].block.clone();
 		let res = self.deliver(bid, opts, what);
+		let after = chrono::Utc::now().timestamp_millis();
 		if res == "next" || res == "reorg" {
+			let tline = match trunc(after) {
+				Some(t) => t,
+				None => return res,
+			};
 			let ins: Vec<CommitWrapper> = b.inputs().into();
 			let ins: Vec<usize> = ins.iter().map(|i| self.oid(&i.commitment())).collect();
 			let ks: Vec<usize> = b.kernels().iter().map(|k| self.kid(k)).collect();
@@ -1037,6 +1048,9 @@ impl<P: PoolAdapter + 'static> Node<P> {
 			// (the adapter drops the result of reconcile_block: `let _ = ...`)
 			let l = format!("pool reconcile_block b{} ins=[{}] kers=[{}] => ok", bid, idlist(&ins, "o", ","), idlist(&ks, "k", ","));
 			self.raw(&l);
+			if let Some(t) = tline {
+				self.raw(&t);
+			}
 			if res == "reorg" {
 				let l = format!("pool reconcile_reorg_cache b{} => ok", bid);
 				self.raw(&l);
@@ -1069,6 +1083,10 @@ impl Mon {
 			stem_probability,
 			always_stem_our_txs,
 		};
+		Mon::with_cfg(work, name, dcfg, max_pool, max_stem)
+	}
+
+	fn with_cfg(work: &str, name: &str, dcfg: DandelionConfig, max_pool: usize, max_stem: usize) -> Mon {
 		let mut net_slot: Option<Arc<PoolToNetAdapter>> = None;
 		let n: Node<PoolToNetAdapter> = Node::with_adapter(work, name, max_pool, max_stem, |peers| {
 			let a = Arc::new(PoolToNetAdapter::new(dcfg.clone()));
@@ -1512,6 +1530,457 @@ fn run_replay_history(work: &str, variant: usize) -> (String, BTreeMap<String, u
 	(out, stats)
 }
 
+// ---------------------------------------------------------------------------------------------
+// run `clock`: the clock arithmetic around the pool (Model/PoolTime.lean) on the real code.
+// The code reads `Utc::now()` itself; the harness sets `tx_at` of pool entries (a public field)
+// relative to its own reading, makes the call within the same wall-clock second (Dandelion
+// compares whole seconds) and checks afterwards that the second has not changed.  A history whose
+// reading slipped is abandoned (`#STAT clock:slipped`), never evaluated.
+
+/// a reading with at least 450 ms left in its second (milliseconds since the epoch)
+fn aligned_now() -> i64 {
+	loop {
+		let now = chrono::Utc::now();
+		if now.timestamp_subsec_millis() < 550 {
+			return now.timestamp_millis();
+		}
+		std::thread::sleep(std::time::Duration::from_millis(15));
+	}
+}
+
+fn same_second(now_ms: i64) -> bool {
+	chrono::Utc::now().timestamp() == now_ms.div_euclid(1000)
+}
+
+fn at_ms(ms: i64) -> chrono::DateTime<chrono::Utc> {
+	use chrono::TimeZone;
+	chrono::Utc.timestamp_millis_opt(ms).unwrap()
+}
+
+impl Mon {
+	/// `ats=[t<id>:<tx_at ms>,..]` of the stem entries
+	fn stem_clock(&self) -> String {
+		let p = self.n.pool.read();
+		let v: Vec<String> = p
+			.stempool
+			.entries
+			.iter()
+			.map(|e| format!("t{}:{}", self.n.reg_id(&e.tx).map(|i| i as i64).unwrap_or(-1), e.tx_at.timestamp_millis()))
+			.collect();
+		format!("ats=[{}]", v.join(","))
+	}
+
+	fn set_stem_at(&mut self, idx: usize, ms: i64) {
+		if let Some(e) = self.n.pool.write().stempool.entries.get_mut(idx) {
+			e.tx_at = at_ms(ms);
+		}
+	}
+
+	fn slipped(&mut self, what: &str) -> bool {
+		self.n.stat(&format!("clock:slipped:{}", what));
+		self.n.raw(&format!("# clock history {} abandoned: the wall clock moved to the next second during {}", self.n.name, what));
+		false
+	}
+
+	/// `DandelionEpoch::is_expired` through the real adapter
+	fn t_epoch_expired(&mut self, label: &str) -> bool {
+		let now = aligned_now();
+		let r = self.net.is_expired();
+		if !same_second(now) {
+			return self.slipped("is_expired");
+		}
+		self.n.raw(&format!("pool tepoch_expired now={} => {}", now, r));
+		self.n.stat(&format!("clock:is_expired:{}:{}", label, r));
+		true
+	}
+
+	/// `DandelionEpoch::next_epoch` through the real adapter
+	fn t_epoch_next(&mut self) -> Option<i64> {
+		let now = aligned_now();
+		self.net.next_epoch();
+		let stem = self.net.is_stem();
+		if !same_second(now) {
+			self.slipped("next_epoch");
+			return None;
+		}
+		self.n.raw(&format!("pool tepoch_next now={} => stem={}", now, if stem { 1 } else { 0 }));
+		self.n.stat(&format!("clock:next_epoch:stem_probability={}:stem={}", self.dcfg.stem_probability, stem));
+		Some(now)
+	}
+
+	/// the stem entries get `tx_at = (start of the reading's second) + offs[i]` (ms) - the reading
+	/// itself is some milliseconds into its second, so ages in whole seconds (`timestamp()`) and in
+	/// milliseconds differ -, then one real fluff phase
+	fn t_fluff(&mut self, offs: &[i64], label: &str) -> bool {
+		let now = aligned_now();
+		let base = now.div_euclid(1000) * 1000;
+		for (i, o) in offs.iter().enumerate() {
+			self.set_stem_at(i, base + o);
+		}
+		let ats = self.stem_clock();
+		let adapter: Arc<dyn DandelionAdapter> = self.mon.clone();
+		let pool = self.n.pool.clone();
+		let cfg = self.dcfg.clone();
+		let (stem0, tx0) = {
+			let p = self.n.pool.read();
+			(p.stempool.size(), p.txpool.size())
+		};
+		let r = catch(std::panic::AssertUnwindSafe(|| verif_process_fluff_phase(&cfg, &pool, &adapter)));
+		if !same_second(now) {
+			return self.slipped("process_fluff_phase");
+		}
+		let res = match &r {
+			Ok(Ok(())) => "ok".to_string(),
+			Ok(Err(e)) => format!("err:{}", perr(e)),
+			Err(p) => format!("panic:{}", p.replace(' ', "_")),
+		};
+		let lhs = format!("pool tfluff_phase now={} {}", now, ats);
+		self.n.raw(&format!("{} => {}", lhs, res));
+		if res.starts_with("panic") {
+			self.n.raw(&format!("#ORACLE-FAIL C14 node-dandelion-monitor-panicked hist={} {} => {}", self.n.name, lhs, res));
+		}
+		let (stem1, tx1) = {
+			let p = self.n.pool.read();
+			(p.stempool.size(), p.txpool.size())
+		};
+		self.n.stat(&format!(
+			"clock:fluff-phase:{}:stempool={}:{}:{}",
+			label,
+			stem0,
+			res,
+			if tx1 > tx0 { format!("fluffed-{}-stem-entries", stem0 - stem1.min(stem0)) } else { "nothing-fluffed".to_string() }
+		));
+		self.n.p_obs(&lhs);
+		true
+	}
+
+	/// the stem entries get `tx_at = (start of the reading's second) + offs[i]` (ms), then one real
+	/// embargo pass
+	fn t_expire(&mut self, offs: &[i64], label: &str) -> bool {
+		let now = aligned_now();
+		let base = now.div_euclid(1000) * 1000;
+		for (i, o) in offs.iter().enumerate() {
+			self.set_stem_at(i, base + o);
+		}
+		let ats = self.stem_clock();
+		let pool = self.n.pool.clone();
+		let cfg = self.dcfg.clone();
+		let (stem0, tx0) = {
+			let p = self.n.pool.read();
+			(p.stempool.size(), p.txpool.size())
+		};
+		let r = catch(std::panic::AssertUnwindSafe(|| verif_process_expired_entries(&cfg, &pool)));
+		if !same_second(now) {
+			return self.slipped("process_expired_entries");
+		}
+		let res = match &r {
+			Ok(Ok(())) => "ok".to_string(),
+			Ok(Err(e)) => format!("err:{}", perr(e)),
+			Err(p) => format!("panic:{}", p.replace(' ', "_")),
+		};
+		let lhs = format!("pool texpire now={} {}", now, ats);
+		self.n.raw(&format!("{} => {}", lhs, res));
+		if res.starts_with("panic") {
+			self.n.raw(&format!("#ORACLE-FAIL C14 node-dandelion-monitor-panicked hist={} {} => {}", self.n.name, lhs, res));
+		}
+		let tx1 = self.n.pool.read().txpool.size();
+		self.n.stat(&format!("clock:embargo:{}:stempool={}:moved-to-txpool={}", label, stem0, tx1.saturating_sub(tx0)));
+		self.n.p_obs(&lhs);
+		true
+	}
+
+	/// one pass of the REAL monitor thread (fluff phase unless stem epoch, embargo, epoch change),
+	/// all of it within the second of the reading
+	fn t_monitor_thread(&mut self, offs: &[i64], label: &str) -> bool {
+		let now = aligned_now();
+		for (i, o) in offs.iter().enumerate() {
+			self.set_stem_at(i, now + o);
+		}
+		let ats = self.stem_clock();
+		let adapter: Arc<dyn DandelionAdapter> = self.mon.clone();
+		let stop = Arc::new(grin_util::StopState::new());
+		let before = self.mon.passes.load(Ordering::SeqCst);
+		let h = match monitor_transactions(self.dcfg.clone(), self.n.pool.clone(), adapter, stop.clone()) {
+			Ok(h) => h,
+			Err(e) => {
+				self.n.raw(&format!("#STAT monitor-thread:not-started:{:?}", e));
+				return false;
+			}
+		};
+		let t0 = std::time::Instant::now();
+		while self.mon.passes.load(Ordering::SeqCst) == before && t0.elapsed().as_secs() < 60 {
+			std::thread::sleep(std::time::Duration::from_millis(2));
+		}
+		// the pass holds the pool's write lock during each phase; the epoch change comes last:
+		// wait for the thread to reach its one-second sleep (it then sees the stop flag)
+		stop.stop();
+		let _ = h.join();
+		// (the join includes the thread's one-second sleep: the pass itself must have finished within
+		// the second of the reading - the epoch's start time tells)
+		let stem = self.net.is_stem();
+		let expired = self.net.is_expired();
+		let lhs = format!("pool tmonitor now={} {}", now, ats);
+		self.n.raw(&format!("{} => stem={},expired={}", lhs, if stem { 1 } else { 0 }, expired));
+		self.n.stat(&format!("clock:monitor-thread:{}:stem-after={}:expired-after={}", label, stem, expired));
+		self.n.p_obs(&lhs);
+		true
+	}
+
+	/// a block through the real `block_accepted` while the reorg cache holds entries of the given
+	/// ages (ms before the reading; entry i of the cache gets `now - ages[i]`)
+	fn t_block(&mut self, period_min: u32, ages: &[i64], rng: &mut Rng, label: &str) -> bool {
+		self.n.pool.write().config.reorg_cache_period = period_min;
+		let parent = self.n.head;
+		let (txs, what) = block_content(&mut self.n, rng, parent);
+		let id = match build_with_fallback(&mut self.n, parent, 1, txs) {
+			Some(id) => id,
+			None => return true,
+		};
+		let before = chrono::Utc::now().timestamp_millis();
+		{
+			let p = self.n.pool.write();
+			let mut c = p.reorg_cache.write();
+			for (i, a) in ages.iter().enumerate() {
+				if let Some(e) = c.get_mut(i) {
+					e.tx_at = at_ms(before - a);
+				}
+			}
+		}
+		let ats: Vec<i64> = self.n.pool.read().reorg_cache.read().iter().map(|e| e.tx_at.timestamp_millis()).collect();
+		let n0 = ats.len();
+		let period_ms = period_min as i64 * 60_000;
+		let mut unstable = false;
+		let ats2 = ats.clone();
+		let res = self.n.p_deliver_t(id, Options::NONE, what, |after| {
+			// every entry on the same side of the cutoff at both readings (2 ms for the sub-millisecond part)
+			if ats2.iter().any(|a| (*a < before - period_ms - 2) != (*a < after - period_ms + 2)) {
+				unstable = true;
+				return None;
+			}
+			Some(Some(format!(
+				"pool tblock_truncate now={} period={} ats=[{}] => ok",
+				before,
+				period_min,
+				ats2.iter().map(|a| a.to_string()).collect::<Vec<_>>().join(",")
+			)))
+		});
+		if unstable {
+			return self.slipped("block_accepted");
+		}
+		let n1 = self.n.pool.read().reorg_cache.read().len();
+		let old = ats.iter().filter(|a| **a < before - period_ms).count();
+		let sorted = ats.windows(2).all(|w| w[0] <= w[1]);
+		self.n.stat(&format!(
+			"clock:block-truncate:{}:period={}min:{}:cache={}:older-than-cutoff={}:removed={}:{}",
+			label,
+			period_min,
+			res,
+			n0.min(6),
+			old.min(6),
+			n0.saturating_sub(n1).min(6),
+			if sorted { "cache-in-time-order" } else { "cache-out-of-time-order" }
+		));
+		true
+	}
+}
+
+const CLK_EPOCH: u16 = 4;
+const CLK_AGG: u16 = 20;
+const CLK_EMBARGO: u16 = 100;
+
+fn run_clock_history(work: &str, hist: usize, seed: u64) -> (String, BTreeMap<String, u64>) {
+	let mut rng = Rng::new(seed.wrapping_mul(9_000_011).wrapping_add(70_001 * (hist as u64 + 1)));
+	// stem_probability 0: the epoch after the first is a fluff epoch (stem entries stay in the
+	// stempool: the timers matter); 100: stem epochs only (no relay: nothing stays in the stempool)
+	let stem_probability = if hist % 2 == 0 { 0 } else { 100 };
+	let dcfg = DandelionConfig {
+		epoch_secs: CLK_EPOCH,
+		embargo_secs: CLK_EMBARGO,
+		aggregation_secs: CLK_AGG,
+		stem_probability,
+		always_stem_our_txs: hist % 4 < 2,
+	};
+	let mut m = Mon::with_cfg(work, &format!("c{}", hist), dcfg.clone(), 50, 50);
+	m.n.p_cfg();
+	m.n.raw(&format!(
+		"pool dcfg epoch={} embargo={} agg={} prob={} always={}",
+		dcfg.epoch_secs,
+		dcfg.embargo_secs,
+		dcfg.aggregation_secs,
+		dcfg.stem_probability,
+		if dcfg.always_stem_our_txs { 1 } else { 0 }
+	));
+	for k in 0..9 {
+		let parent = m.n.head;
+		let mut txs = vec![];
+		if k >= 4 {
+			let free = m.n.free_utxo();
+			if let Some(o) = free.first().cloned() {
+				if let Some(t) = m.n.spend(&[o], 3, 5) {
+					txs.push(t);
+				}
+			}
+		}
+		if let Some(id) = build_with_fallback(&mut m.n, parent, 1, txs) {
+			m.n.p_deliver(id, Options::NONE, "warm-up");
+		}
+	}
+	let finish = |m: Mon| {
+		let Mon { n, .. } = m;
+		let Node { out, stats, .. } = n;
+		(out, stats)
+	};
+	// a new epoch object: no start time, expired
+	if !m.t_epoch_expired("fresh-epoch-object") {
+		return finish(m);
+	}
+	let start = match m.t_epoch_next() {
+		Some(t) => t,
+		None => return finish(m),
+	};
+	if !m.t_epoch_expired("same-second-as-next_epoch") {
+		return finish(m);
+	}
+	let sec = 1000i64;
+	let push_stem = |m: &mut Mon, rng: &mut Rng, count: usize| {
+		for _ in 0..count {
+			let free = m.n.free_utxo();
+			if free.is_empty() {
+				break;
+			}
+			let o = *rng.pick(&free);
+			let fee = fee_for(rng, 1, 1);
+			if let Some(tx) = m.n.spend(&[o], 1, fee) {
+				m.push(tx, TxSource::Broadcast, true, "clock-stem");
+			}
+		}
+	};
+	if stem_probability == 0 {
+		// --- aggregation timer, inside the running epoch (whole seconds: timestamp() floors) ---
+		push_stem(&mut m, &mut rng, 2);
+		// youngest that could be old: exactly aggregation_secs whole seconds back (not `<`), and one
+		// a fraction of a second short of it
+		let agg = CLK_AGG as i64 * sec;
+		// (tx_at at the very start of the second aggregation_secs back: some milliseconds OLDER than
+		// aggregation_secs, yet not old - whole seconds are compared)
+		if !m.t_fluff(&[-agg, -agg + 400], "oldest-entry-exactly-aggregation_secs-old") {
+			return finish(m);
+		}
+		// one millisecond earlier: one whole second more on the clock's second count
+		if !m.t_fluff(&[-agg - 1, -agg + 400], "one-entry-one-millisecond-more:one-second-past-aggregation_secs") {
+			return finish(m);
+		}
+		// --- embargo: the draw is 0..=30 s: exactly embargo_secs old is never expired, 31 s more always ---
+		push_stem(&mut m, &mut rng, 3);
+		let emb = CLK_EMBARGO as i64 * sec;
+		if !m.t_expire(&[-emb, -emb - 31 * sec, -emb + sec], "ages-embargo/embargo+31/embargo-1") {
+			return finish(m);
+		}
+		if !m.t_expire(&[-emb - 31 * sec], "remaining-entry-embargo+31") {
+			return finish(m);
+		}
+		push_stem(&mut m, &mut rng, 2);
+	}
+	// --- the epoch runs for exactly epoch_secs seconds of timestamp() ---
+	let wait_until = |ms: i64| {
+		let now = chrono::Utc::now().timestamp_millis();
+		if ms > now {
+			std::thread::sleep(std::time::Duration::from_millis((ms - now) as u64));
+		}
+	};
+	let start_sec = start.div_euclid(1000) * 1000;
+	wait_until(start_sec + CLK_EPOCH as i64 * sec + 20);
+	if chrono::Utc::now().timestamp() == start.div_euclid(1000) + CLK_EPOCH as i64 {
+		if !m.t_epoch_expired("epoch_secs-after-next_epoch") {
+			return finish(m);
+		}
+	} else {
+		m.n.stat("clock:is_expired:boundary-probe-missed");
+	}
+	wait_until(start_sec + (CLK_EPOCH as i64 + 1) * sec + 20);
+	if !m.t_epoch_expired("epoch_secs+1-after-next_epoch") {
+		return finish(m);
+	}
+	// --- the real monitor thread at the end of the epoch: fluffs whatever the ages, embargo, then
+	// the next epoch ---
+	// (every stem entry younger than both timers: they are fluffed only because the epoch has run
+	// out, i.e. the phases still see the OLD, expired epoch - the epoch changes after them)
+	if !m.t_monitor_thread(&[-3 * sec, -5 * sec, -2 * sec], "epoch-expired-all-entries-young") {
+		return finish(m);
+	}
+	if !m.t_epoch_expired("after-the-monitor-changed-the-epoch") {
+		return finish(m);
+	}
+	// --- observation (statistics only, the draw is random): embargo_secs within 30 of u16::MAX -
+	// `embargo_secs + gen_range(0, 31)` is a u16 sum: this (release) build wraps, a debug build
+	// panics in the monitor thread.  A stem entry 30 s old runs into its "embargo" as soon as the
+	// draw is 6 or more (theorem embargo_cutoff_wraps) ---
+	if stem_probability == 0 && hist == 0 {
+		push_stem(&mut m, &mut rng, 1);
+		let n0 = m.n.pool.read().stempool.size();
+		if n0 > 0 {
+			let cfg = DandelionConfig { embargo_secs: 65_530, ..m.dcfg.clone() };
+			let mut passes = 0;
+			let mut outcome = "still-in-stempool".to_string();
+			while passes < 40 {
+				passes += 1;
+				let now = chrono::Utc::now().timestamp_millis();
+				m.set_stem_at(n0 - 1, now - 30_000);
+				let before: Vec<Transaction> = m.n.pool.read().stempool.entries.iter().map(|e| e.tx.clone()).collect();
+				let pool = m.n.pool.clone();
+				let r = catch(std::panic::AssertUnwindSafe(|| verif_process_expired_entries(&cfg, &pool)));
+				if r.is_err() {
+					outcome = "panicked(overflow-checks-on)".to_string();
+					break;
+				}
+				let after: Vec<Transaction> = m.n.pool.read().stempool.entries.iter().map(|e| e.tx.clone()).collect();
+				if after.len() < before.len() {
+					// the model is told which entries ran into the (wrapped) embargo: the ones that left
+					let left: Vec<usize> = before.iter().filter(|t| !after.contains(t)).filter_map(|t| m.n.reg_id(t)).collect();
+					let lhs = format!("pool expire old=[{}]", idlist(&left, "t", ","));
+					m.n.raw(&format!("{} => ok", lhs));
+					m.n.p_obs(&lhs);
+					outcome = "expired-within-40-passes".to_string();
+					break;
+				}
+			}
+			m.n.stat(&format!("clock:embargo-u16-wrap:embargo_secs=65530:stem-entry-30s-old:{}", outcome));
+		}
+	}
+	// --- reorg cache: block_accepted truncates at now - reorg_cache_period minutes ---
+	for round in 0..3 {
+		for _ in 0..3 {
+			let free = m.n.free_utxo();
+			if free.is_empty() {
+				break;
+			}
+			let o = *rng.pick(&free);
+			let fee = fee_for(&mut rng, 1, 2);
+			if let Some(tx) = m.n.spend(&[o], 2, fee) {
+				m.push(tx, TxSource::Broadcast, false, "clock-cache");
+			}
+		}
+		let (period, label): (u32, &str) = match (hist + round) % 3 {
+			0 => (30, "default-period"),
+			1 => (1, "one-minute"),
+			_ => (0, "zero-period"),
+		};
+		let p = period as i64 * 60_000;
+		let ages: Vec<i64> = match round {
+			// in time order: two past the cutoff by 1 h / 20 s, the rest 20 s short of it
+			0 => vec![p + 3_600_000, p + 20_000, p - 20_000],
+			// out of time order: an old entry behind a young one stays
+			1 => vec![p + 20_000, p - 20_000, p + 20_000],
+			// everything young
+			_ => vec![p - 20_000, p - 60_000],
+		};
+		if !m.t_block(period, &ages, &mut rng, label) {
+			return finish(m);
+		}
+	}
+	finish(m)
+}
+
 fn run_monitor_history(work: &str, hist: usize, seed: u64, rounds: usize) -> (String, BTreeMap<String, u64>) {
 	let mut rng = Rng::new(seed.wrapping_mul(7_000_003).wrapping_add(90_001 * (hist as u64 + 1)));
 	// stem_probability 0: every epoch after the first is a fluff epoch (the stempool fills up and
@@ -1700,7 +2169,8 @@ fn main() {
 	let seed = seed_from_env();
 	let thorough = tier_thorough();
 	let args: Vec<String> = std::env::args().collect();
-	let monitor = args.get(1).map(|s| s == "monitor").unwrap_or(false);
+	let clock = args.get(1).map(|s| s == "clock").unwrap_or(false);
+	let monitor = clock || args.get(1).map(|s| s == "monitor").unwrap_or(false);
 	if monitor {
 		// `monitor_transactions` spawns its own thread: it reads the process-wide parameters, as
 		// in a running node (the worker threads of this harness set the same values thread-locally)
@@ -1709,7 +2179,7 @@ fn main() {
 		global::init_global_accept_fee_base(FEE_BASE);
 	}
 	let args: Vec<String> = if monitor { args[1..].to_vec() } else { args };
-	let nh: usize = args.get(1).and_then(|s| s.parse().ok()).unwrap_or(if monitor { if thorough { 12 } else { 3 } } else if thorough { 10 } else { 3 });
+	let nh: usize = args.get(1).and_then(|s| s.parse().ok()).unwrap_or(if clock { if thorough { 6 } else { 2 } } else if monitor { if thorough { 12 } else { 3 } } else if thorough { 10 } else { 3 });
 	let rounds: usize = args.get(2).and_then(|s| s.parse().ok()).unwrap_or(if monitor { if thorough { 20 } else { 6 } } else if thorough { 30 } else { 10 });
 	// the regular run ends with the scripted reorg-replay histories
 	const NREPLAY: usize = 3;
@@ -1740,7 +2210,9 @@ fn main() {
 					let dir = format!("{}/n{}", work, h);
 					let _ = std::fs::create_dir_all(&dir);
 					let r = std::panic::catch_unwind(std::panic::AssertUnwindSafe(|| {
-						if monitor {
+						if clock {
+							run_clock_history(&dir, h, seed)
+						} else if monitor {
 							run_monitor_history(&dir, h, seed, rounds)
 						} else if h >= nh - NREPLAY {
 							run_replay_history(&dir, h - (nh - NREPLAY))
@@ -1768,7 +2240,7 @@ fn main() {
 	writeln!(
 		lock,
 		"#STAT poolnode{}: real Chain + servers::ChainToPoolAndNetAdapter + TransactionPool over PoolToChainAdapter{}, Peers without peers; {} histories of {} rounds{}; accept_fee_base {}",
-		if monitor { " monitor" } else { "" },
+		if clock { " clock (tx_at of stem / reorg-cache entries set around the timers' boundaries, calls made within one wall-clock second: epoch_secs 4, aggregation_secs 20, embargo_secs 100, reorg_cache_period 30 / 1 / 0 min)" } else if monitor { " monitor" } else { "" },
 		if monitor { " and PoolToNetAdapter; NetToChainAdapter::transaction_received, dandelion_monitor phases and mine_block::get_block through grin_servers::verif_export" } else { "" },
 		nh,
 		rounds,
